@@ -1,5 +1,7 @@
 package main
 
+import "golang.org/x/tools/go/ssa"
+
 func init() {
 	register(&PropertyDef{
 		ID: "C15",
@@ -19,4 +21,56 @@ func runC15(p *Program, r *Result) {
 	r.Rule("R15.6", "deferred closures do not overwrite the error being returned (a failed final flush/close must surface)", 0)
 	checkDeferredOverwrite(p, r, []string{pkgCmdAge, pkgKeygen})
 	checkCLIFiles(p, r)
+	r.Rule("R15.7", "the plaintext is taken from the decrypting reader only by copiers for which nothing but io.EOF is a clean end", 1)
+	checkPlaintextConsumers(p, r)
+}
+
+// checkPlaintextConsumers: in the CLI the reader returned by age.Decrypt is consumed only by
+// io.Copy / io.CopyBuffer / io.ReadAll (whose error R15.1 requires to be checked). A hand-written
+// read loop has to decide itself which errors end it; one that takes io.ErrUnexpectedEOF — what
+// the payload reader reports for a file cut at a chunk boundary — for the end delivers a prefix
+// with exit status 0.
+func checkPlaintextConsumers(p *Program, r *Result) {
+	allowed := map[string]int{"io.Copy": 1, "io.CopyBuffer": 1, "io.ReadAll": 0, "io/ioutil.ReadAll": 0}
+	n := 0
+	for _, fn := range p.Funcs {
+		if !inPkg(fn, pkgCmdAge) || fn.Signature.Recv() != nil {
+			continue // the file decryption path; encrypted identity files are read by the key-file scanner (C18)
+		}
+		for _, c := range callsTo(fn, pkgAge+".Decrypt") {
+			cv := c.Value()
+			if cv == nil || cv.Referrers() == nil {
+				continue
+			}
+			for _, ref := range *cv.Referrers() {
+				ex, ok := ref.(*ssa.Extract)
+				if !ok || ex.Index != 0 {
+					continue
+				}
+				n++
+				bad := ""
+				uses := 0
+				flowsToOpt(ex, false, func(call ssa.CallInstruction, arg int) bool {
+					name := calleeName(call.Common())
+					if idx, ok := allowed[name]; ok && idx == arg {
+						uses++
+						return false
+					}
+					bad = "the plaintext reader is consumed by " + short(name) + " at " + r.pos(call.(ssa.Instruction))
+					return false
+				})
+				switch {
+				case bad != "":
+					r.Bad(fn.String(), "plaintext-consumer", r.pos(c), bad+": which errors end that read is decided by hand (io.ErrUnexpectedEOF must not)")
+				case uses == 0:
+					r.Unk(fn.String(), "plaintext-consumer", r.pos(c), "the reader returned by age.Decrypt is not consumed")
+				default:
+					r.OK(fn.String(), "plaintext-consumer", r.pos(c), "consumed by io.Copy/io.CopyBuffer/io.ReadAll only")
+				}
+			}
+		}
+	}
+	if n == 0 {
+		r.Unk(pkgCmdAge, "plaintext-consumer", "", "no call of age.Decrypt found in the CLI")
+	}
 }
